@@ -3,10 +3,11 @@ import KoordVerif.Model.C19
 import KoordVerif.Model.C19Dev
 import KoordVerif.Model.C19Rsv
 import KoordVerif.Model.C19QuotaSpec
+import KoordVerif.Model.C19Boot
 /-
 Driver for C19.  A case belongs to one harness; the first token of its first op line selects the
 sub-model (`dev` -> Model/C19Dev, `rsv` -> Model/C19Rsv, `quota` -> Model/C19Quota + C19QuotaSpec,
-everything else -> this file).
+`rpod` -> Model/C19Boot (reserve-pod annotation / label merge), everything else -> this file).
 
 cpuset harness (pkg/util/cpuset):
   fmt <e>*            NewCPUSet(e…).String() then Parse of that text
@@ -32,6 +33,8 @@ numa harness (pkg/scheduler/plugins/nodenumaresource), one case = one history on
   numa ftopo <0|1>            the fresh cache's topologyOptionsManager has no / has the node's CPU topology
         (0: the NodeResourceTopology has not arrived yet, resourceManager.Update returns early)
   numa dump <cache>           -> ledger block
+  numa boot <gated> <k0> <uid>^k0 <k1> <uid>^k1   start-up of a fresh cache behind the handlers-sync barrier
+        (Model/C19Boot.lean bootSeen) -> `held <0|1>` `opened <0|1>` + the ledger block the first cycle reads
 -/
 namespace KoordVerif.C19
 open KoordVerif.Proto
@@ -169,6 +172,26 @@ def stepNuma (d : DState) (args : List String) : DState × List String :=
     match nat? v with
     | some v => if v > 1 then bad else ({ d with freshTopo := v = 1 }, [])
     | none => bad
+  | "boot" :: rest =>
+    -- start-up stream (ext2, harness `numaboot`): `numa boot <gated> <k0> <uid>^k0 <k1> <uid>^k1`: a fresh
+    -- resourceManager behind the REAL registerPodEventHandler; registration 0 = pod informer, 1 = Reservation informer
+    -- (both through ForceSyncFromInformer: tie_boot_registrations); <gated> = the pinned listener (2 = none)
+    match nats? rest with
+    | some (g :: k0 :: more) =>
+      if g > 2 ∨ more.length < k0 + 1 then bad else
+      let l0 := more.take k0
+      match more.drop k0 with
+      | k1 :: l1 =>
+        if l1.length ≠ k1 then bad else
+        let regs : List Boot.RegInfo := [{ inBarrier := true, gated := g = 0 }, { inBarrier := true, gated := g = 1 }]
+        let (held, opened, seen) := Boot.bootSeen regs [l0, l1]
+        match seen.mapM (fun u => findObj u d.objs) with
+        | none => bad
+        | some os =>
+          let s := os.foldl (fun s o => onUpdateT true d.topo s none o) St.init
+          ({ d with fresh := s }, [s!"held {b2i held}", s!"opened {b2i opened}"] ++ dumpSt d.topo d.maxRef s)
+      | [] => bad
+    | _ => bad
   | ["dump", c] =>
     match nat? c with
     | some 0 => (d, dumpSt d.topo d.maxRef d.live)
@@ -211,6 +234,7 @@ def runCase (lines : List String) : List String :=
     | "dev" :: _ => KoordVerif.C19.Dev.runCase lines
     | "rsv" :: _ => KoordVerif.C19.Rsv.runCase lines
     | "quota" :: _ => KoordVerif.C19.Quota.runCase lines
+    | "rpod" :: _ => KoordVerif.C19.Boot.runCase lines
     | _ => runOwn lines
 
 end KoordVerif.C19
